@@ -15,7 +15,7 @@ from gen.programs import INT, BOOL, STR, FLOAT, VOID, tup, fn, iter_of, arr, cel
 from props import c11, c13
 from vlib import esc_field, harness_run, sexp_parse, sexp_str
 
-THM_MODULES = ["SslModel.Thm.C01", "SslModel.Thm.C01Eval", "SslModel.Thm.C01Fn", "SslModel.Thm.C01StA", "SslModel.Thm.C01StB", "SslModel.Thm.C01StU", "SslModel.Thm.C01StC", "SslModel.Thm.C01StD"]
+THM_MODULES = ["SslModel.Thm.C01", "SslModel.Thm.C01Eval", "SslModel.Thm.C01Fn", "SslModel.Thm.C01StA", "SslModel.Thm.C01StB", "SslModel.Thm.C01StU", "SslModel.Thm.C01StS", "SslModel.Thm.C01StC", "SslModel.Thm.C01StD"]
 TRANSLATE_PARTS = ["scalar", "errors"]
 ANY = ("any",)
 
@@ -270,7 +270,8 @@ def fragment_types(res, rnd, n, broken_model, functions=False, stores=False):
                 res.count("%s:%s:with-if-set" % (label, verdict))
             for tag, pat in (("for", r"\bfor \w+ in "), ("destructuring", r"\(\w+(, \w+)*\) := "), ("loop", r"\b(loop|while) "),
                              ("cell-write", r"\bc\w \S*= "), ("union-index", r"\bpua\["), ("union-tuple-access", r"\bput\.\d"),
-                             ("union-deref", r"\*puc\b"), ("union-call", r"\bpu[fgm]\("), ("union-assign", r"\bpuc = "), ("collect", r"\$\]"), ("union-slice", r"\bpua\[[^\]]*:")):
+                             ("union-deref", r"\*puc\b"), ("union-call", r"\bpu[fgm]\("), ("union-assign", r"\bpuc = "), ("collect", r"\$\]"), ("union-slice", r"\bpua\[[^\]]*:"), ("struct-literal", r"\bstruct\{"), ("field-access", r"\.[a-z]\b"),
+                             ("union-field-access", r"\bpsu\.a\b")):
                 if stores and re.search(pat, src):
                     res.count("%s:%s:with-%s" % (label, verdict, tag))
         if verdict == "unsup":
